@@ -7,6 +7,7 @@ Decided by execution (tools/c07_worker.py, separate interpreters):
  * an AddressSanitizer + UBSan build of the tokenizer (PYTHONMALLOC=malloc so that every object has red zones)
    over table-driven inputs, adversarial families, grammar documents in all three string widths, and calls
    aborted at the k-th token construction for every k followed by reuse of the object;
+ * the same items under CPython's debug allocator (allocator API mix-ups, pad bytes);
  * libc's mallinfo2 (all allocations, PYTHONMALLOC=malloc) and reference counts over windows of repeated
    completed and aborted calls.
 """
@@ -94,6 +95,12 @@ def run(tier, seed):
     asan = _launch("asan", n, seed, tier, _asan_env())
     res = _collect(asan, 1500 if tier == "quick" else 20000)
     _digest(c, "asan", res, seed, tier, stats, shim_rows)
+    # the same items under CPython's debug allocator: it checks which allocator API every block came from and the
+    # pad bytes around every block (the sanitizer leg runs with PYTHONMALLOC=malloc and cannot see an API mix-up)
+    dbg = _launch("asan", n, seed, tier, {"PYTHONMALLOC": "debug", "C07_LEG": "dbg"})
+    res = _collect(dbg, 1500 if tier == "quick" else 20000)
+    _digest(c, "dbg", res, seed, tier, stats_dbg := {}, [])
+    stats["debug_allocator_items"] = sum(stats_dbg.get(k, 0) for k in ("tok", "inj"))
     leak = _launch("leak", n, seed, tier, {})
     res = _collect(leak, 1500 if tier == "quick" else 20000)
     _digest(c, "leak", res, seed, tier, stats, [])
@@ -142,7 +149,10 @@ def replay(data):
         return 1
     env = dict(os.environ)
     env.update({"PYTHONHASHSEED": "0", "PYTHONMALLOC": "malloc"})
-    if d["mode"] == "asan":
+    if d["mode"] == "dbg":
+        env.update({"PYTHONMALLOC": "debug", "C07_LEG": "dbg"})
+        d = dict(d, mode="asan")
+    elif d["mode"] == "asan":
         vlib.build_ctokenizer(tag="ctok_asan", sanitize=True)
         vlib.build_tbshim(sanitize=True)
         env.update(_asan_env())
